@@ -478,22 +478,7 @@ public:
       _transport->onClose(
         [this](SessionId sid, const TransportErrorInfo &)
         {
-          std::lock_guard<std::mutex> lock(_sessionMutex);
-          auto it = _sessionInfo.find(sid);
-          if (it != _sessionInfo.end())
-          {
-            iora::core::Logger::info(
-              "HttpServer: HTTP connection closed from " + it->second.peerAddress + ":" +
-              std::to_string(it->second.peerPort) + " (session " + std::to_string(sid) + ")");
-            _sessionInfo.erase(it);
-            _upgradedSessions.erase(sid);
-          }
-          else
-          {
-            _upgradedSessions.erase(sid);
-            iora::core::Logger::debug("HttpServer: Connection closed (session " +
-                                      std::to_string(sid) + ")");
-          }
+          handleSessionClosed(sid);
         });
 
       // Error callback
@@ -715,6 +700,39 @@ protected:
   static char asciiLower(char c)
   {
     return (c >= 'A' && c <= 'Z') ? static_cast<char>(c - 'A' + 'a') : c;
+  }
+
+  /// \brief Called once the transport has closed a session, after the HTTP-level
+  /// state of that session has been released and with NO server lock held.
+  /// Override to release per-session state of an upgraded protocol (the
+  /// WebSocket server frees its receive/fragment buffers here).
+  virtual void onSessionClosed(SessionId sid)
+  {
+    (void)sid;
+  }
+
+  /// \brief Transport close callback: the connection of \p sid is gone.
+  void handleSessionClosed(SessionId sid)
+  {
+    {
+      std::lock_guard<std::mutex> lock(_sessionMutex);
+      auto it = _sessionInfo.find(sid);
+      if (it != _sessionInfo.end())
+      {
+        iora::core::Logger::info(
+          "HttpServer: HTTP connection closed from " + it->second.peerAddress + ":" +
+          std::to_string(it->second.peerPort) + " (session " + std::to_string(sid) + ")");
+        _sessionInfo.erase(it);
+        _upgradedSessions.erase(sid);
+      }
+      else
+      {
+        _upgradedSessions.erase(sid);
+        iora::core::Logger::debug("HttpServer: Connection closed (session " +
+                                  std::to_string(sid) + ")");
+      }
+    }
+    onSessionClosed(sid);
   }
 
   /// \brief Handle incoming data from a session
